@@ -280,18 +280,15 @@ pub fn remove<ID: Eq + Hash, C: Conditions>(
     Ok(state)
 }
 
-/// Modify the access level of a group member.
+/// Ensure that `modifier` is allowed to change the access level of `modified`.
 ///
-/// Both the `modifier` and `modified` identity must be active group members; failure to meet these
-/// conditions will result in an error.
-///
-/// This is a helper method to reduce code duplication in `promote()` and `demote()`.
-fn modify<ID: Eq + Hash, C: Conditions>(
-    state: GroupMembersState<ID, C>,
+/// The `modifier` must be an active member of the group with `Manage` access and the `modified`
+/// identity must be an active group member. The identities are handed back on success.
+fn validate_modify<ID: Eq + Hash, C: Conditions>(
+    state: &GroupMembersState<ID, C>,
     modifier: ID,
     modified: ID,
-    access: Access<C>,
-) -> Result<GroupMembersState<ID, C>, GroupMembershipError<ID>> {
+) -> Result<(ID, ID), GroupMembershipError<ID>> {
     // Ensure that "modifier" is known to the group.
     let Some(modifier_state) = state.members.get(&modifier) else {
         return Err(GroupMembershipError::UnrecognisedActor(modifier));
@@ -312,6 +309,23 @@ fn modify<ID: Eq + Hash, C: Conditions>(
     } else {
         return Err(GroupMembershipError::UnrecognisedMember(modified));
     }
+
+    Ok((modifier, modified))
+}
+
+/// Modify the access level of a group member.
+///
+/// Both the `modifier` and `modified` identity must be active group members; failure to meet these
+/// conditions will result in an error.
+///
+/// This is a helper method to reduce code duplication in `promote()` and `demote()`.
+fn modify<ID: Eq + Hash, C: Conditions>(
+    state: GroupMembersState<ID, C>,
+    modifier: ID,
+    modified: ID,
+    access: Access<C>,
+) -> Result<GroupMembersState<ID, C>, GroupMembershipError<ID>> {
+    let (_modifier, modified) = validate_modify(&state, modifier, modified)?;
 
     // Update access level.
     let mut state = state;
@@ -343,6 +357,8 @@ pub fn promote<ID: Eq + Hash, C: Conditions>(
     if let Some(member) = state.members.get(&promoted) {
         // No action is required if the member is already set to the highest access level.
         let new_state = if member.is_manager() {
+            // Nothing changes, but the promoter still needs to be authorised to do this.
+            validate_modify(&state, promoter, promoted)?;
             state
         } else {
             modify(state, promoter, promoted, access)?
@@ -371,6 +387,8 @@ pub fn demote<ID: Eq + Hash, C: Conditions>(
     if let Some(member) = state.members.get(&demoted) {
         // No action is required if the member is already set to the lowest access level.
         let new_state = if member.is_puller() {
+            // Nothing changes, but the demoter still needs to be authorised to do this.
+            validate_modify(&state, demoter, demoted)?;
             state
         } else {
             modify(state, demoter, demoted, access)?
